@@ -18,10 +18,16 @@ SCHEMES = {
 }
 
 
+BIG = {50: "tail-A", 51: "tail-B"}     # content ids of 2.5 MiB files that differ only in their last bytes
+_BIG_HEAD = ("big file block %07d\n" % 0) * (2 * 1024 * 1024 // 23 + 20000)
+
+
 def content(c):
     # content id 2 is the empty file: its SHA-256 differs from the "" recorded for a missing file
     if c == 2:
         return ""
+    if c in BIG:
+        return _BIG_HEAD + BIG[c] + "\n"
     return ("content %d\n" % c) * 30
 
 
@@ -306,6 +312,20 @@ def bulk_behaviour(bins, beh, n, rng):
                 f.write(content(36))
             sim.wt[nm] = 36
             sim.events.append({"ev": "write", "p": nm, "c": 36})
+        sim.analyze()
+        # a large file recorded as pending and then changed only beyond its first 2 MiB must be reported again
+        big = names[1]
+        for c in (50,):
+            with open(os.path.join(fx.repo, big), "w") as f:
+                f.write(content(c))
+            sim.wt[big] = c
+            sim.events.append({"ev": "write", "p": big, "c": c})
+        sim.act({"a": "cp_update", "id": 1, "pending": True})
+        sim.analyze()
+        with open(os.path.join(fx.repo, big), "w") as f:
+            f.write(content(51))
+        sim.wt[big] = 51
+        sim.events.append({"ev": "write", "p": big, "c": 51})
         sim.analyze()
         return sim.events
     finally:
